@@ -1,5 +1,5 @@
 (** C08 — a finalized listing is an immutable, binding offer until it expires. *)
-From FM Require Import Offer.
+From FM Require Import Offer Reentrant.
 
 (** The owner of a listing still in preparation can finalize it for exactly the lifetimes
     600 .. 1209600 seconds, bounds included. *)
@@ -58,6 +58,14 @@ Theorem C08_status_monotone : forall ops w id,
   Inv (market w) -> (lrank (market w) id <= lrank (market (run w ops)) id)%nat.
 Proof. exact run_rank_mono. Qed.
 Print Assumptions C08_status_monotone.
+
+(** ... and over histories of transactions during which a hostile token contract re-enters the
+    marketplace with arbitrary programs (model/Reentry.v): whatever it does in the middle of a
+    dispatch, no listing ever moves back to an earlier status. *)
+Theorem C08_status_monotone_with_reentry : forall tx w id,
+  Inv (market w) -> (lrank (market w) id <= lrank (market (rrun w tx)) id)%nat.
+Proof. exact rrun_rank_mono. Qed.
+Print Assumptions C08_status_monotone_with_reentry.
 
 Definition ask1 : gbal := mkG [(0, 5)] [] [].
 Definition winit : world :=
